@@ -1,0 +1,24 @@
+//go:build verif
+
+package utils
+
+// Contracts for the deductive verifier in /verif (govc). Comment-only.
+
+//@ func reverse
+//@ modifies b[:]
+//@ ensures forall k int :: 0 <= k && k < len(b) ==> b[k] == old(b[len(b)-1-k])
+//@ loop 0 invariant 0 <= i && i + j == len(b) - 1 && i <= j + 1
+//@ loop 0 invariant forall k int :: 0 <= k && k < i ==> (b[k] == old(b[len(b)-1-k]) && b[len(b)-1-k] == old(b[k]))
+//@ loop 0 invariant forall k int :: i <= k && k <= j ==> b[k] == old(b[k])
+//@ loop 0 decreases j - i + 1
+
+//@ func VlqEncode
+//@ ensures [P:C03] fresh(out) && len(out) == vlqLen(n)
+//@ ensures [P:C03] forall k int :: 0 <= k && k < len(out) ==> out[k] == vlqByte(n, k)
+//@ loop 0 invariant fresh(out)
+//@ loop 0 invariant 1 <= len(out) && len(out) <= 5 && len(out) <= vlqLen(n)
+//@ loop 0 invariant quo == shr7(n, len(out))
+//@ loop 0 invariant out[0] == vlqGroup(n, 0)
+//@ loop 0 invariant forall k int :: 1 <= k && k < len(out) ==> out[k] == (vlqGroup(n, k) | 0x80)
+//@ loop 0 invariant (quo == 0) == (len(out) == vlqLen(n))
+//@ loop 0 decreases 5 - len(out)
